@@ -4,6 +4,7 @@ open Emboss.Bounds
 #print axioms C05_constant_exact
 #print axioms C05_constant_value_agrees
 #print axioms C05_bounds_functions
+#print axioms C05_size_bounds
 #print axioms C05_gate_implies_one_type
 #print axioms C05_inv_transfer
 #print axioms C05_inv_transfer_max
